@@ -144,6 +144,13 @@ func (dec *Decoder) Decode() (*Document, error) {
 			// This means the file is not valid. I have seen it in very rare
 			// cases. See full explanation in AllowInvalidIndents.
 			if dec.AllowInvalidIndents {
+				// There is no node at all that this one could be attached
+				// to (the first line of the file is not a root node).
+				if len(indents) == 0 {
+					return nil, fmt.Errorf("line %d: missing parent: %s",
+						lineNumber, line)
+				}
+
 				indent = len(indents)
 			} else {
 				panic(fmt.Sprintf(
@@ -230,7 +237,15 @@ func (dec *Decoder) readLine() (string, error) {
 
 var lineRegexp = regexp.MustCompile(`^(\d+) +(@[^@]+@ )?(\w+) ?(.*)?$`)
 
-func parseLine(line string, document *Document, family *FamilyNode) (Node, int, error) {
+func parseLine(line string, document *Document, family *FamilyNode) (node Node, indent int, err error) {
+	// Some nodes cannot be created in isolation, such as a HUSB that appears
+	// before any FAM. The stream is not valid but that must not be a panic.
+	defer func() {
+		if r := recover(); r != nil {
+			node, indent, err = nil, 0, fmt.Errorf("%v: %s", r, line)
+		}
+	}()
+
 	parts := lineRegexp.FindStringSubmatch(line)
 
 	if len(parts) == 0 {
@@ -238,7 +253,7 @@ func parseLine(line string, document *Document, family *FamilyNode) (Node, int, 
 	}
 
 	// Indent (required).
-	indent, _ := strconv.Atoi(parts[1])
+	indent, _ = strconv.Atoi(parts[1])
 
 	// Pointer (optional).
 	pointer := ""
